@@ -188,28 +188,36 @@ Print Assumptions ufunc_linear_flag_correct.
    Functional.derivative(x) = InnerProductOperator(gradient(x)).  For EVERY tree of
    the functional arithmetic -- L2NormSquared, L2Norm, L1Norm, Constant/Zero,
    Left/RightScalarMult, Sum, ScalarSum, Translation, QuadraticPerturb, Product,
-   Quotient, RightVectorMult, composition with a matrix operator -- with
-   [fgrad f x] the element the gradient rules compute at x:  d |-> <d, fgrad f x>
-   is the Frechet/Hadamard derivative of f at x, at every regular point
-   (x <> 0 for L2Norm, no zero entry for L1Norm, divisor <> 0), on unweighted rn(n).
+   Quotient, RightVectorMult, composition with a matrix operator -- on a space
+   with ANY weighting w (rn(n) unweighted / constant / array weighting,
+   uniform_discr; <x, y>_w = sum_i w_i x_i y_i), with [fgrad w f x] the element the
+   gradient rules compute at x:   d |-> <d, fgrad w f x>_w   is the
+   Frechet/Hadamard derivative of f at x, at every regular point (x <> 0 for
+   L2Norm, no zero entry for L1Norm, divisor <> 0).
+   [fok w f]: every composition with a MatrixOperator is between UNWEIGHTED spaces
+   (its adjoint is the plain transpose; on weighted spaces the statement is
+   false -- recorded finding FunctionalComp-MatrixOperator-weighted-space).
    [sdiff n phi x ell]: along every differentiable curve g through x with
    velocity d,  t |-> phi (g t)  has derivative  ell d  at 0. *)
 Theorem functional_gradient_is_derivative :
-  forall (f : @fexpr R) (x : list R),
-  fwt f = true -> length x = fdim f -> fregular f x ->
-  sdiff (fdim f) (feval sqrt f) x (fun d => dot d (fgrad sqrt f x)).
+  forall (f : @fexpr R) (w x : list R),
+  fwt f = true -> fok w f = true -> length w = fdim f -> length x = fdim f -> fregular w f x ->
+  sdiff (fdim f) (feval sqrt w f) x (fun d => wdot w d (fgrad sqrt w f x)).
 Proof. exact fgrad_sound. Qed.
 Print Assumptions functional_gradient_is_derivative.
 
 Theorem functional_derivative_is_frechet :
-  forall (f : @fexpr R) (x : list R),
-  fwt f = true -> length x = fdim f -> fregular f x ->
-  hdiff (fdim f) 1 (fun y => [feval sqrt f y]) x (fun d => [dot d (fgrad sqrt f x)]).
+  forall (f : @fexpr R) (w x : list R),
+  fwt f = true -> fok w f = true -> length w = fdim f -> length x = fdim f -> fregular w f x ->
+  hdiff (fdim f) 1 (fun y => [feval sqrt w f y]) x (fun d => [wdot w d (fgrad sqrt w f x)]).
 Proof. exact functional_derivative_sound. Qed.
 Print Assumptions functional_derivative_is_frechet.
 
+(* a weighted example without composition, and an unweighted one with a matrix composition *)
 Example functional_premises_hold :
-  fwt ex_f = true /\ length [1; 2] = fdim ex_f /\ fregular ex_f [1; 2].
+  (fwt ex_f = true /\ fok [2; 3] ex_f = true /\ length [2; 3] = fdim ex_f /\ length [1; 2] = fdim ex_f /\
+   fregular [2; 3] ex_f [1; 2]) /\
+  (fwt ex_g = true /\ fok [1; 1] ex_g = true /\ fregular [1; 1] ex_g [1; 2]).
 Proof. exact ex_f_premises. Qed.
 
 (* ---- the premise on user-defined leaves is satisfiable: the harness's own
